@@ -118,6 +118,8 @@ func moduleSource(c *graphCase, i int) string {
 	return b.String()
 }
 
+var sharedInterp = exec.NewInterpreter("verif").SetExternalLibs(h.Libs())
+
 func reach(c *graphCase) (reachable []bool, cyclic bool) {
 	n := len(c.Names)
 	reachable = make([]bool, n)
@@ -158,6 +160,23 @@ func run(c *graphCase) *h.Outcome {
 		os.MkdirAll(filepath.Dir(p), 0o755)
 		os.WriteFile(p, []byte(s), 0o644)
 	}
+	// an earlier run of the same interpreter object, from ANOTHER directory that holds modules
+	// of the same names with other contents (every case carries its own history this way)
+	decoy, _ := os.MkdirTemp(tmpRoot, "decoy-*")
+	defer os.RemoveAll(decoy)
+	var dmain strings.Builder
+	for n := range mods {
+		parts := strings.Split(n, "-")
+		p := filepath.Join(append([]string{decoy}, parts...)...) + ".zn"
+		os.MkdirAll(filepath.Dir(p), 0o755)
+		os.WriteFile(p, []byte("如何诱饵？\n    输出0\n"), 0o644)
+		dmain.WriteString("导入“" + n + "”之诱饵\n")
+	}
+	os.WriteFile(filepath.Join(decoy, "main.zn"), []byte(dmain.String()+"输出1\n"), 0o644)
+	exec.VerifTicks, exec.VerifTickBudget, exec.VerifMaxDepth, exec.VerifDepth = 0, 200000, 2000, 0
+	h.Capture(func() {
+		h.Guard(func() { sharedInterp.LoadFile(filepath.Join(decoy, "main.zn")).Execute(r.ElementMap{}) })
+	})
 	o := &h.Outcome{}
 	var val r.Element
 	var err error
@@ -165,7 +184,10 @@ func run(c *graphCase) *h.Outcome {
 	exec.VerifTicks, exec.VerifTickBudget, exec.VerifMaxDepth, exec.VerifDepth = 0, 200000, 2000, 0
 	out := h.Capture(func() {
 		kind, msg, site = h.Guard(func() {
-			val, err = exec.NewInterpreter("verif").SetExternalLibs(h.Libs()).LoadFile(filepath.Join(dir, "main.zn")).Execute(r.ElementMap{})
+			// ONE interpreter object runs all file-mode programs of this process, each from its
+			// own directory (the same module names with other contents): a run resolves its
+			// modules below ITS main file, as the files are at that time
+			val, err = sharedInterp.LoadFile(filepath.Join(dir, "main.zn")).Execute(r.ElementMap{})
 		})
 	})
 	exec.VerifTickBudget, exec.VerifMaxDepth = 0, 0
